@@ -63,6 +63,11 @@ def _nary():
                                                    "assert r.is_exact_match('109876543210x012345678910')"),
         ("empties beyond the ninth position", "ops = ['a', 'b', 'c', 'd', 'e', 'f', 'g', 'h', 'i', Pregex(), 'j', '', 'k', Concat()]\nkept = [o for o in ops if not (isinstance(o, str) and o == '') and str(o) != '']\n"
                                               "eq(Concat(*ops), str(Concat(*kept)))\neq(Either(*ops), str(Either(*kept)))\neq(Enclose(*ops), str(Enclose(*kept)))"),
+        ("twenty and forty operands", "import string\nfor n in (17, 20, 33, 40):\n    ops = [string.ascii_letters[i] * (1 + i % 3) for i in range(n)]\n    ops[9] = 'x|y'; ops[-1] = 'end.'; ops[16] = AnyDigit()\n"
+                                       "    e = Either(*ops)\n    for o in ops:\n        t = '5' if not isinstance(o, str) else o\n        assert e.is_exact_match(t), (n, t)\n    assert not e.is_exact_match('endx') and not e.is_exact_match('x') and str(e).count('|') == n\n"
+                                       "    c = Concat(*ops)\n    assert c.is_exact_match(''.join('5' if not isinstance(o, str) else o for o in ops)), n\n"
+                                       "    withempty = list(ops)\n    withempty.insert(n - 2, ''); withempty.insert(12, Pregex())\n    eq(Either(*withempty), str(e))\n    eq(Concat(*withempty), str(c))\n"
+                                       "    allstr = [o if isinstance(o, str) else 'd' for o in ops]\n    w = list(allstr); w.insert(n - 1, '')\n    eq(Either(*w), str(Either(*allstr)))"),
         ("eleven assertions", "asserts = [chr(ord('a') + i) for i in range(11)]\nr = FollowedBy('x', *asserts)\nassert str(r).count('(?=') == 11\n"
                               "r2 = NotFollowedBy('x', *asserts)\nassert r2.is_exact_match('x') and r2.get_matches('xk xz') == ['x'] and r2.get_matches('xl') == ['x']\n"
                               "r3 = NotPrecededBy('x', *asserts)\nassert r3.get_matches('kx lx') == ['x']\n"
@@ -81,6 +86,19 @@ def _deep():
                                    "for f, g in steps:\n    p, ref = f(p), g(ref)\n    eq(p, ref)"),
         ("twelve nested groups", "p = Pregex('a')\nfor i in range(12):\n    p = Capture(p + 'b') if i % 2 else Group(Either(p, 'c'))\nimport re\nassert re.compile(str(p)).groups == 6\n"
                                  "r = 'a'\nfor i in range(12):\n    r = ('((?:' + r + ')b)') if i % 2 else ('(?:(?:' + r + ')|c)')\neq(p, r)"),
+    ]
+
+
+def _groups_scale():
+    return [
+        ("long and deep operands of capture()/group()", "import re\nfor body in (Pregex('a' * 300), Concat(*['ab.'] * 100), Either(*[chr(0x61 + i % 26) * 12 for i in range(30)]), Pregex('a' * 255), Pregex('a' * 257)):\n    c = Capture(body)\n    n0 = re.compile(str(body)).groups\n"
+                                                        "    assert re.compile(str(c)).groups == n0 + 1\n    assert re.compile(str(Capture(c))).groups == n0 + 1, len(str(c))\n    nm = Capture(c, 'nm')\n    assert re.compile(str(nm)).groups == n0 + 1 and dict(re.compile(str(nm)).groupindex) == {'nm': 1}\n"
+                                                        "    assert re.compile(str(Group(c))).groups == n0\n    assert re.compile(str(Capture(Group(body)))).groups == n0 + 1\n"
+                                                        "def nest(k):\n    p = Pregex('a')\n    for i in range(k):\n        p = Capture(p + chr(ord('b') + i))\n    return p\n"
+                                                        "for k in (4, 5, 6, 7, 8, 12):\n    c = nest(k)\n    assert re.compile(str(c)).groups == k\n    assert re.compile(str(Capture(c))).groups == k, k\n    assert re.compile(str(Group(c))).groups == k - 1, k\n"
+                                                        "    nm = Capture(c, 'outer')\n    assert re.compile(str(nm)).groups == k and dict(re.compile(str(nm)).groupindex) == {'outer': 1}, k\n    assert Optional(c).is_exact_match('') and str(Optional(c)) == str(c) + '?'\n"
+                                                        "for ln in (31, 32, 33, 64, 200):\n    n = 'g' * ln\n    c = Capture(Capture('a', 'inner') + 'b', n)\n    r = Capture(c, 'renamed')\n    assert dict(re.compile(str(r)).groupindex) == {'renamed': 1, 'inner': 2}, ln\n"
+                                                        "    g = Group(c)\n    assert dict(re.compile(str(g)).groupindex) == {'inner': 1}, ln"),
     ]
 
 
@@ -110,6 +128,20 @@ def _classes():
     ]
 
 
+def _classes_more():
+    return [
+        ("invalid arguments beyond the tenth", "for bad in ('ab', 5, None, '', AnyDigit(), Pregex('ab')):\n    for n in (10, 11, 15, 40):\n        args = [chr(0x61 + i % 26) for i in range(n)] + [bad]\n        for cls in (AnyFrom, AnyButFrom):\n"
+                                               "            try:\n                r = cls(*args)\n            except InvalidArgumentTypeException:\n                continue\n            raise AssertionError('%s accepted %r as argument %d' % (cls.__name__, bad, n + 1))"),
+        ("ranges above the basic plane", "from mc import den\nfor a, b in (('\\u4e00', '\\U00010000'), ('\\uffff', '\\U00010000'), ('\\U00010000', '\\U0010ffff'), ('z', '\\U0001f600'), ('\\U0001f600', '\\U0001f64f'), ('\\x7f', '\\u0100'), ('\\u0fff', '\\u1000')):\n"
+                                         "    d, m = den.of_text(str(AnyBetween(a, b)))\n    assert d == den.norm([(ord(a), ord(b))]), (a, b)\n    d2, m2 = den.of_text(str(AnyButBetween(a, b)))\n    assert d2 == den.compl(den.norm([(ord(a), ord(b))])), (a, b)\n"
+                                         "    for cls in (AnyBetween, AnyButBetween):\n        try:\n            cls(b, a)\n        except InvalidRangeException:\n            continue\n        raise AssertionError('reversed range accepted')"),
+        ("many characters against ranges", "from mc import den\nsc = [chr(0x100 + 3 * i) for i in range(40)]\nA = AnyFrom(*sc)\nB = AnyBetween(chr(0x100), chr(0x100 + 3 * 29)) | AnyBetween(chr(0x400), chr(0x410))\nd, m = den.of_text(str(A - B))\nassert d == den.from_chars(sc[30:]), str(A - B)\n"
+                                           "try:\n    r = AnyFrom(*sc) - AnyBetween(chr(0x100), chr(0x200))\nexcept EmptyClassException:\n    pass\nelse:\n    raise AssertionError(str(r))\n"
+                                           "R = AnyBetween(chr(0x1000), chr(0x1400))\nholes = [chr(0x1000 + 7 * i + 3) for i in range(120)]\nX = R\nfor h in holes:\n    X = X - h\nd2, _ = den.of_text(str(X))\nassert d2 == den.diff(den.norm([(0x1000, 0x1400)]), den.from_chars(holes)), len(str(X))\n"
+                                           "Y = R - AnyFrom(*holes)\nassert den.of_text(str(Y))[0] == d2\nZ = AnyFrom(*holes) | AnyFrom(*sc)\nassert den.of_text(str(Z))[0] == den.union(den.from_chars(holes), den.from_chars(sc))"),
+    ]
+
+
 def _matching():
     return [
         ("many matches, large positions", "import re\np = Capture(OneOrMore(AnyDigit()), 'n') + Optional(Capture('x'))\nt = ' '.join(str(i) + ('x' if i % 3 == 0 else '') for i in range(1200))\ncre = re.compile(str(p), 24)\nms = list(cre.finditer(t))\n"
@@ -121,9 +153,18 @@ def _matching():
                                           "    for count in (9, 10, 11, 99, 100, 101, 1199, 1200, 5000):\n        assert q.replace(t, '#', count) == cre.sub('#', t, count=count), count\n"
                                           "    for nl, nr in ((10, 0), (0, 10), (12, 15), (100, 100), (5000, 5000)):\n"
                                           "        assert q.get_matches_with_context(t, nl, nr) == [t[max(m.start() - nl, 0):m.end() + nr] for m in ms], (nl, nr)"),
+        ("empty captures beyond position 256", "import re\np = Capture(Optional('x')) + Capture(AnyDigit(), 'd') + Capture(Indefinite('y'))\nt = ' '.join(('x' if i % 2 else '') + str(i % 10) + ('y' if i % 3 == 0 else '') for i in range(400))\ncre = re.compile(str(p), 24)\nms = list(cre.finditer(t))\n"
+                                               "for q in (p, (lambda z: (z.compile(), z)[1])(Capture(Optional('x')) + Capture(AnyDigit(), 'd') + Capture(Indefinite('y')))):\n    for ie in (True, False):\n"
+                                               "        assert q.get_captures(t, ie) == [tuple(g for g in m.groups() if ie or g != '') for m in ms], ie\n"
+                                               "        assert q.get_captures_and_pos(t, ie) == [[(m.group(i), m.start(i), m.end(i)) for i in (1, 2, 3) if ie or m.group(i) != ''] for m in ms], ie\n"
+                                               "        assert q.get_named_captures_and_pos(t, ie) == [{'d': (m.group(2), m.start(2), m.end(2))} for m in ms]\n"
+                                               "        caps = [g for m in ms for g in m.groups() if ie or g != '']\n        ps = q.split_by_capture(t, ie)\n        assert len(ps) == len(caps) + 1 and ''.join(a + b for a, b in zip(ps, caps)) + ps[-1] == t, ie"),
         ("long match, long text", "p = Indefinite(AnyLetter())\nt = 'a' * 5000 + ' ' + 'b' * 70000\nassert p.get_matches(t)[0] == 'a' * 5000 and p.get_matches_and_pos(t)[2] == ('b' * 70000, 5001, 75001)\nassert p.is_exact_match('ab' * 40000) and Pregex('b' * 70000).has_match(t)"),
         ("file larger than any buffer", "import tempfile, os\np = Capture(OneOrMore(AnyDigit())) + '\\n'\nt = ''.join('%d\\n' % i for i in range(60000)) + 'é' * 3 + '\\n77\\n'\nf = os.path.join(tempfile.mkdtemp(), 'big.txt')\nopen(f, 'w', encoding='utf-8', newline='').write(t)\n"
-                                        "assert len(t.encode()) > 300000\nfor q in (p, (lambda z: (z.compile(), z)[1])(Capture(OneOrMore(AnyDigit())) + '\\n')):\n    assert q.get_matches(f, is_path=True) == q.get_matches(t)\n    assert q.get_captures_and_pos(f, is_path=True)[-1] == q.get_captures_and_pos(t)[-1]\n"
+                                        "assert len(t.encode()) > 300000\nrun = 'a' * 65000 + 'z' * 3000 + '\\nb' + 'c' * 70000\nf2 = os.path.join(os.path.dirname(f), 'run.txt')\nopen(f2, 'w', encoding='utf-8', newline='').write(run)\n"
+                                        "for mk in (lambda: Pregex('z' * 3000), lambda: MatchAtStart('z'), lambda: MatchAtLineStart('c'), lambda: MatchAtEnd('c' * 66000), lambda: Pregex('az') + Indefinite('z') + Newline() + 'bc', lambda: MatchAtLineStart('b' + 'c' * 70000)):\n"
+                                        "    for comp in (False, True):\n        q = mk()\n        if comp:\n            q.compile()\n        assert q.has_match(f2, is_path=True) == q.has_match(run), str(q)[:30]\n        assert q.get_matches_and_pos(f2, is_path=True) == q.get_matches_and_pos(run), str(q)[:30]\n"
+                                        "        assert q.is_exact_match(f2, is_path=True) == q.is_exact_match(run)\nfor q in (p, (lambda z: (z.compile(), z)[1])(Capture(OneOrMore(AnyDigit())) + '\\n')):\n    assert q.get_matches(f, is_path=True) == q.get_matches(t)\n    assert q.get_captures_and_pos(f, is_path=True)[-1] == q.get_captures_and_pos(t)[-1]\n"
                                         "    assert q.has_match(f, is_path=True) and not q.is_exact_match(f, is_path=True)\n    assert q.replace(f, '', 10, is_path=True) == q.replace(t, '', 10)\n    assert q.split_by_match(f, is_path=True) == q.split_by_match(t)\n"
                                         "    assert q.get_matches_with_context(f, 12, 12, is_path=True)[-1] == q.get_matches_with_context(t, 12, 12)[-1]"),
     ]
@@ -158,6 +199,10 @@ def _meta_lang():
                                               "for a in ('12345:2:3:4:5:6:7:8', '1:2:3:4:5:6:7:8:9', 'fffff::', '1:2:3:4:5:6:7:88888'):\n    assert not IPv6().is_exact_match(a) and not IPv6(is_extensible=True).is_exact_match(a), a\n"
                                               "d = Date()\nt2 = ' '.join('%02d/%02d/%04d' % (1 + i % 28, 1 + i % 12, 1900 + i) for i in range(150))\nassert d.get_matches(t2) == t2.split(' ')\n"
                                               "fm = ['dd/mm/yyyy', 'd/m/yy', 'mm-dd-yyyy', 'yyyy/mm/dd', 'yy-m-d', 'm/d/yy', 'dd-mm-yy', 'd-m-yyyy', 'yyyy-m-d', 'mm/dd/yy', 'yy/mm/dd', 'd/mm/yyyy']\nd12 = Date(fm)\n"
+                                              "from mc.props.lang import all_formats, date_model, near\nimport re\nfm48 = all_formats()\nfor n in (16, 17, 20, 31, 32, 33, 47, 48):\n    sel = fm48[:n]\n    dn = Date(sel)\n    for f in (fm48[0], fm48[n - 1], fm48[min(n, 47)], fm48[15], fm48[16 if n > 16 else 0], fm48[-1]):\n"
+                                              "        for (a, s1, b, s2, c) in near(f)[::7]:\n            t = a + s1 + b + s2 + c\n            assert dn.is_exact_match(t) == any(date_model(g, a, s1, b, s2, c) for g in sel), (n, t)\n"
+                                              "for bad in (fm48[:47] + ['dd.mm.yyyy'], fm48[:20] + ['x'] + fm48[20:47], ['dd/mm/yyyy'] * 47 + ['DD/MM/YYYY']):\n    try:\n        Date(bad)\n    except InvalidArgumentValueException:\n        continue\n    raise AssertionError('invalid format in a list of %d accepted' % len(bad))\n"
+                                              "dup = Date(['dd/mm/yyyy'] * 48)\nassert dup.is_exact_match('24/11/2001') and not dup.is_exact_match('2001-7-3') and not dup.is_exact_match('24-11-2001')\n"
                                               "assert d12.is_exact_match('7/11/2001') and d12.is_exact_match('2001-7-3') and d12.is_exact_match('01/31/99') and not d12.is_exact_match('2001/7/3') and not d12.is_exact_match('7-11-01')"),
     ]
 
@@ -172,17 +217,23 @@ def _history():
 
 
 FAMILIES = {
-    'C01': _long_literals, 'C02': lambda: _q_cases()[:20] + _many_groups() + _nary() + _deep(), 'C03': lambda: _nary() + _deep() + _long_literals() + _many_groups(),
-    'C04': _q_cases, 'C05': lambda: _nary()[3:], 'C06': lambda: _classes()[:1], 'C07': lambda: _classes()[1:], 'C08': lambda: _many_groups() + _deep()[1:] + _long_literals()[1:],
+    'C01': _long_literals, 'C02': lambda: _q_cases()[:20] + _many_groups() + _nary() + _deep(), 'C03': lambda: _nary() + _deep() + _long_literals() + _many_groups() + _classes_more()[:2] + _groups_scale(),
+    'C04': _q_cases, 'C05': lambda: _nary()[3:], 'C06': lambda: _classes()[:1] + _classes_more()[:2], 'C07': lambda: _classes()[1:] + _classes_more()[2:], 'C08': lambda: _many_groups() + _deep()[1:] + _long_literals()[1:] + _groups_scale(),
     'C09': lambda: _nary()[4:] + [("wide repetition of assertions", "for n in (10, 11, 100):\n    for mk in (lambda: MatchAtStart('a'), lambda: FollowedBy('a', 'b'), lambda: EnclosedBy('a', 'b'), lambda: MatchAtLineEnd('a' * 40)):\n"
                                     "        for q in (lambda x: Exactly(x, n), lambda x: x * n, lambda x: AtLeastAtMost(x, 1, n), lambda x: AtLeast(x, n)):\n            try:\n                r = q(mk())\n            except CannotBeRepeatedException:\n                continue\n            raise AssertionError(str(r))\n"
-                                    "    assert str(Exactly('a' * 40 + '$', n)).endswith('{%d}' % n)")],
+                                    "    assert str(Exactly('a' * 40 + '$', n)).endswith('{%d}' % n)\n"
+                                    "for lit in ('.' * 30 + '$', '$' * 26, '(' * 25 + '\\\\Z', '?' * 40 + '(?=a)', '\\\\' * 27 + '$', 'a.' * 13 + '^'):\n    for q in (lambda x: Exactly(x, 2), lambda x: OneOrMore(x), lambda x: Pregex(x) * 3, lambda x: AtLeastAtMost(x, 2, 3)):\n        r = q(lit)\n        assert r.is_exact_match(lit * 2) or r.is_exact_match(lit * 3), lit[:10]\n"
+                                    "def nest(k, cap):\n    p = Pregex('a')\n    for i in range(k):\n        p = (Capture(p) if cap else Group(p)) + chr(ord('b') + i)\n    return p\n"
+                                    "for k in (3, 5, 6, 7, 9, 12):\n    for cap in (True, False):\n        for mk in (lambda: MatchAtStart(Either('x', nest(k, cap))), lambda: MatchAtLineEnd(Either(nest(k, cap), 'x')), lambda: FollowedBy('a', nest(k, cap)), lambda: FollowedBy('a', Capture(nest(k, cap))),\n"
+                                    "                   lambda: PrecededBy('a', nest(k, cap)), lambda: EnclosedBy(nest(k, cap), nest(k, cap) if not cap else 'q'), lambda: MatchAtEnd(nest(k, cap))):\n"
+                                    "            for q in (lambda x: OneOrMore(x), lambda x: x * 2, lambda x: AtLeast(x, 0)):\n                try:\n                    r = q(mk())\n                except CannotBeRepeatedException:\n                    continue\n                raise AssertionError('depth %d: %s' % (k, str(r)[:80]))\n"
+                                    "        assert OneOrMore(nest(k, cap)).is_exact_match(('a' + ''.join(chr(ord('b') + i) for i in range(k))) * 2), k")],
     'C10': lambda: _nary()[4:] + [("wide fixed and variable widths", "for w in (10, 11, 64, 100, 255, 300):\n    for y in (Pregex('a' * w), Exactly(AnyDigit(), w), Exactly(Either('ab', 'cd'), w), Concat(*['x'] * w), AtLeastAtMost('a', w, w)):\n"
                                     "        import re\n        r = PrecededBy('k', y)\n        re.compile(str(r), 24)\n        assert r.get_matches(('ab' * w + 'a' * w + 'x' * w + '7' * w) + 'k') in ([], ['k'])\n"
                                     "    for y in (AtLeastAtMost('a', w, w + 1), AtLeast('a', w), AtMost(AnyDigit(), w), Either('a' * w, 'a' * (w + 1)), Pregex('a' * w) + Optional('b')):\n"
                                     "        try:\n            r = NotPrecededBy('k', y)\n        except NonFixedWidthPatternException:\n            continue\n        raise AssertionError(str(r))\n"
                                     "assert PrecededBy('k', 'ab' * 50).get_matches('ab' * 50 + 'k') == ['k'] and PrecededBy('k', 'ab' * 50).get_matches('ab' * 49 + 'bk') == []")],
-    'C11': _matching, 'C12': lambda: _matching()[:1] + _many_groups()[:2], 'C13': lambda: _matching()[:1] + _many_groups()[4:], 'C14': lambda: _matching()[2:] + _matching()[:1],
+    'C11': _matching, 'C12': lambda: _matching() + _many_groups()[:2], 'C13': lambda: _matching() + _many_groups()[4:], 'C14': _matching,
     'C15': lambda: _numeric()[:2], 'C16': lambda: _numeric()[2:3], 'C17': lambda: _numeric()[3:], 'C18': _meta_lang, 'C19': _meta_lang, 'C20': _history,
 }
 
